@@ -319,7 +319,24 @@ func runCheck(o *Options) (int, *Evidence) {
 	}
 	prog := newProgram()
 	byDir := map[string][]string{}
+	load := map[string]bool{}
 	for p := range pk {
+		load[p] = true
+	}
+	// callee contracts may live in other packages of the same module: load those as well
+	for _, f := range sp.Funcs {
+		if f.External {
+			continue
+		}
+		for p := range pk {
+			d1, _ := moduleDir(o.repo, p)
+			d2, _ := moduleDir(o.repo, f.Pkg)
+			if d1 == d2 {
+				load[f.Pkg] = true
+			}
+		}
+	}
+	for p := range load {
 		d, pat := moduleDir(o.repo, p)
 		byDir[d] = append(byDir[d], pat)
 	}
